@@ -172,6 +172,9 @@ def run(ctx):
             if ev and ev.get("e") == "ReadBlocked":
                 ctx.violation("%s:readers-not-shared" % label, "a second reader (%s) could not enter within 3 s while only a reader held the lock: readers must be able to hold the lock together" % label, [f])
                 continue
+            if ev and ev.get("e") == "TryRefused":
+                ctx.violation("%s:trylock-refused" % label, "lock (%s): trylock on a free, uncontended lock kept returning FALSE (21 attempts) after a round in which trylock calls met the end of another thread's critical section" % label, [f])
+                continue
             if ev and ev.get("e") == "Overlap":
                 ctx.violation("%s:overlap" % label, "lock (%s): two threads were inside the same critical section at once (six threads taking two lock objects through lock and trylock, not logged)" % label, [f])
                 continue
